@@ -15,7 +15,7 @@ strings and mixed unsortable hashables (float / str / tuple / None), replays the
 after every call: the interaction rows (exact, value by value), the ids and values of the three parameter
 tables, and for raw_learners every reported number (bag per learner level and x, 1e-9).  Python converts and
 compares only; every expectation comes out of TLC."""
-import json, math, random, zlib, hashlib, multiprocessing
+import json, math, random, zlib, hashlib, multiprocessing, concurrent.futures
 from fractions import Fraction
 from .. import tlc, tracecheck
 
@@ -65,14 +65,17 @@ class Case:
                 ids = list(ids); self.rng.shuffle(ids)
                 tabs.append([list(PCOLS[kind])] + [list(self.prow(kind, i)) for i in ids])
             return Result(tabs[0], tabs[1], tabs[2], [list(ICOLS)] + rows)
-        trx = [["version", 4], ["experiment", {}]]
-        for kind, tag, ids in (("e", "E", E), ("l", "L", L), ("v", "V", V)):
+        # as a transaction log is written and read back: TransactionEncode -> text lines -> TransactionDecode -> TransactionResult
+        from coba.results import TransactionEncode, TransactionDecode
+        trx = [["T0", {}]]
+        for kind, tag, ids in (("e", "T1", E), ("l", "T2", L), ("v", "T3", V)):
             for i in ids: trx.append([tag, i, dict(zip(PCOLS[kind][1:], self.prow(kind, i)[1:]))])
         by = {}
-        for e, l, v, i, y in sorted(rows): by.setdefault((e, l, v), []).append(y)
+        for e, l, v, i, y in sorted(rows): by.setdefault((e, l, v), []).append({"reward": y})
         keys = list(by); self.rng.shuffle(keys)
-        for k in keys: trx.append(["I", list(k), {"_packed": {"reward": by[k]}}])
-        return TransactionResult().filter(trx)
+        for k in keys: trx.append(["T4", k, by[k]])
+        lines = list(TransactionEncode(None).filter(trx))
+        return TransactionResult().filter(TransactionDecode().filter(lines))
 
     # ---- expectations (conversion of the spec's compact encoding) ----
     def exp_rows(self, evset):
@@ -245,43 +248,48 @@ def ma_case(j, variant):
 
 def plan(ctx):
     """(name, cfg substitutions, simulate, minimum number of histories)"""
-    S = lambda **kw: kw
     base_ma = {'Mode = "res"': 'Mode = "ma"'}
+    PAT = {'LenMode = "all"': 'LenMode = "pat"'}
+    WIDE = {"FinLPs <- LPMid": "FinLPs <- LPAll", "RawArgs <- RawFew": "RawArgs <- RawMid", "BestArgs <- BestFew": "BestArgs <- BestAll", "WhereArgs <- WhereFew": "WhereArgs <- WhereAll"}
+    NODESIGN = {"INVARIANT FinDesign\n": "", "INVARIANT RawDesign\n": ""}
+    def S(*ds):
+        out = {}
+        for d in ds: out.update(d)
+        return out
     if ctx.quick:
         return [
-            ("ma", dict(base_ma, **{"MAMaxLen = 3": "MAMaxLen = 4"}), None, 1000),
-            # every Result on the 2x2x1 grid with lengths 1..3, every single call of the wide argument sets
-            ("g221-all", {"MaxLen = 2": "MaxLen = 3", "FinNs <- N2": "FinNs <- N3", "RawArgs <- RawFew": "RawArgs <- RawMid",
-                          "BestArgs <- BestFew": "BestArgs <- BestAll", "WhereArgs <- WhereFew": "WhereArgs <- WhereAll"}, None, 5000),
-            # two evaluators: every subset of the 2x2x2 grid, patterned lengths
-            ("g222-pat", {"Dims <- D221": "Dims <- D222", 'LenMode = "all"': 'LenMode = "pat"', "TabFull <- Bools": "TabFull <- OnlyF", "MaxMissing = 9": "MaxMissing = 4",
-                          "Ops <- AllOps": "Ops <- FinRaw"}, None, 5000),
-            # three environments / learners with duplicated parameter values, few missing
-            ("g331-pat", {"Dims <- D221": "Dims <- D331", 'LenMode = "all"': 'LenMode = "pat"', "MaxMissing = 9": "MaxMissing = 1", "MaxLen = 2": "MaxLen = 3",
-                          "TabFull <- Bools": "TabFull <- OnlyF", "Pars <- P2": "Pars <- P4", "FinNs <- N2": "FinNs <- N3"}, None, 5000),
+            ("ma", S(base_ma, {"MAMaxLen = 3": "MAMaxLen = 4"}), None, 1000),
+            # every Result on the 2x2x1 grid with lengths 1..2, every single call of the wide argument sets
+            ("g221-all", S(WIDE, {"FinLPs <- LPMid": "FinLPs <- LPMid"}), None, 5000),
+            # lengths 1..3 and n = 3 on the same grid, where_fin and raw_learners only
+            ("g221-len3", {"MaxLen = 2": "MaxLen = 3", "FinNs <- N2": "FinNs <- N3", "Ops <- AllOps": "Ops <- FinRaw", "TabFull <- Bools": "TabFull <- OnlyF"}, None, 5000),
+            # two evaluators: subsets of the 2x2x2 grid (up to 4 triples missing), patterned lengths
+            ("g222-pat", S(PAT, {"Dims <- D221": "Dims <- D222", "LenPats <- LP6": "LenPats <- LP3", "TabFull <- Bools": "TabFull <- OnlyF", "MaxMissing = 9": "MaxMissing = 4",
+                                 "Ops <- AllOps": "Ops <- FinRaw"}), None, 5000),
+            # three environments / learners with duplicated parameter values, at most one triple missing
+            ("g331-pat", S(PAT, {"Dims <- D221": "Dims <- D331", "MaxMissing = 9": "MaxMissing = 1", "MaxLen = 2": "MaxLen = 3",
+                                 "TabFull <- Bools": "TabFull <- OnlyF", "Pars <- P2": "Pars <- P4", "FinNs <- N2": "FinNs <- N3"}), None, 3000),
             # chains
-            ("g221-chain2", {"MaxOps = 1": "MaxOps = 2", 'LenMode = "all"': 'LenMode = "pat"', "FinLPs <- LPMid": "FinLPs <- LPFew"}, None, 3000),
-            ("chains-sim", {"Dims <- D221": "Dims <- DAll", "MaxOps = 1": "MaxOps = 4", 'LenMode = "all"': 'LenMode = "pat"', "MaxLen = 2": "MaxLen = 3", "Pars <- P2": "Pars <- P4",
-                            "MaxMissing = 9": "MaxMissing = 3", "FinNs <- N2": "FinNs <- N3", "FinLPs <- LPMid": "FinLPs <- LPAll", "RawArgs <- RawFew": "RawArgs <- RawMid",
-                            "WhereArgs <- WhereFew": "WhereArgs <- WhereAll", "BestArgs <- BestFew": "BestArgs <- BestAll", "INVARIANT FinDesign\n": "", "INVARIANT RawDesign\n": ""}, dict(num=40), 1000),
+            ("g221-chain2", S(PAT, {"MaxOps = 1": "MaxOps = 2", "LenPats <- LP6": "LenPats <- LP3", "FinLPs <- LPMid": "FinLPs <- LPFew", "TabFull <- Bools": "TabFull <- OnlyF"}), None, 3000),
+            ("chains-sim", S(PAT, WIDE, NODESIGN, {"Dims <- D221": "Dims <- DAll", "MaxOps = 1": "MaxOps = 4", "MaxLen = 2": "MaxLen = 3", "Pars <- P2": "Pars <- P4",
+                                                   "MaxMissing = 9": "MaxMissing = 3", "FinNs <- N2": "FinNs <- N3"}), dict(num=4), 1000),
         ]
     return [
-        ("ma", dict(base_ma, **{"MAMaxLen = 3": "MAMaxLen = 5", "MAVals <- MAV3": "MAVals <- MAV4", "MASpans <- MAS5": "MASpans <- MAS7", "MAWeights <- MAWFew": "MAWeights <- MAWAll"}), None, 10000),
-        ("g221-all", {"MaxLen = 2": "MaxLen = 4", "FinNs <- N2": "FinNs <- N4", "FinLPs <- LPMid": "FinLPs <- LPAll", "RawArgs <- RawFew": "RawArgs <- RawAll", "Pars <- P2": "Pars <- P4",
-                      "BestArgs <- BestFew": "BestArgs <- BestAll", "WhereArgs <- WhereFew": "WhereArgs <- WhereAll", "Salts = {0}": "Salts = {0, 1}"}, None, 50000),
-        ("g222-all", {"Dims <- D221": "Dims <- D222", "FinLPs <- LPMid": "FinLPs <- LPAll", "RawArgs <- RawFew": "RawArgs <- RawMid", "Ops <- AllOps": "Ops <- FinRaw"}, None, 50000),
-        ("g321-all", {"Dims <- D221": "Dims <- D321", "MaxLen = 2": "MaxLen = 3", "FinNs <- N2": "FinNs <- N3", "Pars <- P2": "Pars <- P4", "TabFull <- Bools": "TabFull <- OnlyF"}, None, 50000),
-        ("g331-pat", {"Dims <- D221": "Dims <- D331", 'LenMode = "all"': 'LenMode = "pat"', "MaxMissing = 9": "MaxMissing = 3", "MaxLen = 2": "MaxLen = 3",
-                      "Pars <- P2": "Pars <- P4", "FinNs <- N2": "FinNs <- N3", "FinLPs <- LPMid": "FinLPs <- LPAll", "RawArgs <- RawFew": "RawArgs <- RawMid"}, None, 50000),
-        ("g332-pat", {"Dims <- D221": "Dims <- D332", 'LenMode = "all"': 'LenMode = "pat"', "MaxMissing = 9": "MaxMissing = 2", "MaxLen = 2": "MaxLen = 3",
-                      "Pars <- P2": "Pars <- P4", "TabFull <- Bools": "TabFull <- OnlyF", "FinNs <- N2": "FinNs <- N3", "Ops <- AllOps": "Ops <- FinRaw"}, None, 50000),
-        ("g221-chain3", {"MaxOps = 1": "MaxOps = 3", 'LenMode = "all"': 'LenMode = "pat"', "FinLPs <- LPMid": "FinLPs <- LPFew", "TabFull <- Bools": "TabFull <- OnlyF"}, None, 50000),
-        ("g222-chain2", {"Dims <- D221": "Dims <- D222", "MaxOps = 1": "MaxOps = 2", 'LenMode = "all"': 'LenMode = "pat"', "MaxMissing = 9": "MaxMissing = 3",
-                         "TabFull <- Bools": "TabFull <- OnlyF"}, None, 50000),
-        ("chains-sim", {"Dims <- D221": "Dims <- DAll", "MaxOps = 1": "MaxOps = 5", 'LenMode = "all"': 'LenMode = "pat"', "MaxLen = 2": "MaxLen = 4", "Pars <- P2": "Pars <- P4",
-                        "MaxMissing = 9": "MaxMissing = 4", "FinNs <- N2": "FinNs <- N4", "FinLPs <- LPMid": "FinLPs <- LPAll", "RawArgs <- RawFew": "RawArgs <- RawAll",
-                        "WhereArgs <- WhereFew": "WhereArgs <- WhereAll", "BestArgs <- BestFew": "BestArgs <- BestAll", "Salts = {0}": "Salts = {0, 1, 2}",
-                        "INVARIANT FinDesign\n": "", "INVARIANT RawDesign\n": ""}, dict(num=1500), 20000),
+        ("ma", S(base_ma, {"MAMaxLen = 3": "MAMaxLen = 5", "MAVals <- MAV3": "MAVals <- MAV4", "MASpans <- MAS5": "MASpans <- MAS7", "MAWeights <- MAWFew": "MAWeights <- MAWAll"}), None, 10000),
+        ("g221-all", S(WIDE, {"MaxLen = 2": "MaxLen = 3", "FinNs <- N2": "FinNs <- N3", "Pars <- P2": "Pars <- P4"}), None, 50000),
+        ("g221-len4", {"MaxLen = 2": "MaxLen = 4", "FinNs <- N2": "FinNs <- N4", "Ops <- AllOps": "Ops <- FinRaw", "TabFull <- Bools": "TabFull <- OnlyF", "Salts = {0}": "Salts = {1}"}, None, 20000),
+        ("g222-all", {"Dims <- D221": "Dims <- D222", "Ops <- AllOps": "Ops <- FinRaw", "TabFull <- Bools": "TabFull <- OnlyF"}, None, 50000),
+        ("g321-all", {"Dims <- D221": "Dims <- D321", "MaxLen = 2": "MaxLen = 3", "FinNs <- N2": "FinNs <- N3", "TabFull <- Bools": "TabFull <- OnlyF"}, None, 50000),
+        ("g331-pat", S(PAT, WIDE, {"Dims <- D221": "Dims <- D331", "MaxMissing = 9": "MaxMissing = 2", "MaxLen = 2": "MaxLen = 3", "Pars <- P2": "Pars <- P4", "FinNs <- N2": "FinNs <- N3",
+                                   "TabFull <- Bools": "TabFull <- OnlyF"}), None, 50000),
+        ("g332-pat", S(PAT, {"Dims <- D221": "Dims <- D332", "MaxMissing = 9": "MaxMissing = 2", "MaxLen = 2": "MaxLen = 3", "Pars <- P2": "Pars <- P4", "TabFull <- Bools": "TabFull <- OnlyF",
+                             "FinNs <- N2": "FinNs <- N3", "Ops <- AllOps": "Ops <- FinRaw"}), None, 50000),
+        ("g221-chain3", S(PAT, {"MaxOps = 1": "MaxOps = 3", "LenPats <- LP6": "LenPats <- LP3", "FinLPs <- LPMid": "FinLPs <- LPFew", "TabFull <- Bools": "TabFull <- OnlyF"}), None, 50000),
+        ("g222-chain2", S(PAT, {"Dims <- D221": "Dims <- D222", "MaxOps = 1": "MaxOps = 2", "LenPats <- LP6": "LenPats <- LP3", "MaxMissing = 9": "MaxMissing = 2",
+                                "TabFull <- Bools": "TabFull <- OnlyF"}), None, 50000),
+        ("chains-sim", S(PAT, WIDE, NODESIGN, {"Dims <- D221": "Dims <- DAll", "MaxOps = 1": "MaxOps = 5", "MaxLen = 2": "MaxLen = 4", "Pars <- P2": "Pars <- P4",
+                                               "MaxMissing = 9": "MaxMissing = 4", "FinNs <- N2": "FinNs <- N4", "RawArgs <- RawMid": "RawArgs <- RawAll",
+                                               "Salts = {0}": "Salts = {0, 1, 2}"}), dict(num=60), 20000),
     ]
 
 
@@ -289,11 +297,30 @@ def run(ctx):
     import coba.results  # noqa: F401  (fail early if the tree does not import)
     from coba.context import CobaContext, NullLogger
     CobaContext.logger = NullLogger()
+    if ctx.replay:      # ./check C18 --replay replays/C18/<sha>.json : one recorded case against the current tree
+        c = json.load(open(ctx.replay))["case"]
+        if "ma" in c: bad = ma_case(c, 0) or ma_case(c, 1)
+        else: bad = replay(c["history"], c["enc"], c["route"], c["variant"], random.Random(ctx.seed))
+        ctx.case("replay"); ctx.traces += 1
+        if bad: ctx.violation(bad[0], bad[1], c)
+        return
     total = 0; ops = {}; alts = 0
-    for name, sub, sim, least in plan(ctx):
+    def model(item):
+        name, sub, sim, least = item
         cfg = tracecheck._cfg("ResultFin.cfg", sub, ctx.scratch, "rf_%s.cfg" % name)
-        if sim: r = tlc.run("MC_ResultFin", cfg, ctx.scratch, workers=16, simulate=sim, depth=8, seed=ctx.seed, timeout=3000, heap="16g")
-        else: r = tlc.run("MC_ResultFin", cfg, ctx.scratch, workers=16, timeout=3000, heap="24g")
+        if sim: r = tlc.run("MC_ResultFin", cfg, ctx.scratch, workers=16, simulate=sim, depth=8, seed=ctx.seed, timeout=3000, heap="8g")
+        else: r = tlc.run("MC_ResultFin", cfg, ctx.scratch, workers=16, timeout=3000, heap="8g")
+        r.out = ""
+        return r
+    items = plan(ctx)
+    # replay workers are forked once, before any thread exists
+    pool = multiprocessing.get_context("fork").Pool(WORKERS)
+    # TLC works on the next configuration while the histories of the current one are replayed
+    ex = concurrent.futures.ThreadPoolExecutor(1)
+    nxt = ex.submit(model, items[0])
+    for k, (name, sub, sim, least) in enumerate(items):
+        r = nxt.result()
+        nxt = ex.submit(model, items[k + 1]) if k + 1 < len(items) else None
         ctx.add_tlc("ResultFin_" + name, r)
         for v in r.violations:
             ctx.violation("spec:%s" % (v["name"] or v["kind"]), "ResultFin.tla itself violates %s (%s)" % (v["name"], name), v["trace"][:60])
@@ -320,15 +347,15 @@ def run(ctx):
             alts += any(s["alts"] for s in hists[key])
         jobs = [(key, hists[key], ctx.quick, ctx.seed) for key in keys]
         # histories are independent: replayed in forked workers, results consumed in sorted order (deterministic)
-        with multiprocessing.get_context("fork").Pool(WORKERS) as pool:
-            for key, out in zip(keys, pool.imap(_job, jobs, chunksize=200)):
-                if out:
-                    bad, enc, route, variant = out
-                    ctx.violation(bad[0], "%s [values as %s, Result built via %s]" % (bad[1], enc, route), dict(history=hists[key], enc=enc, route=route, variant=variant))
-        del jobs
+        for key, out in zip(keys, pool.imap(_job, jobs, chunksize=200)):
+            if out:
+                bad, enc, route, variant = out
+                ctx.violation(bad[0], "%s [values as %s, Result built via %s]" % (bad[1], enc, route), dict(history=hists[key], enc=enc, route=route, variant=variant))
+        del jobs, r
         total += len(hists)
         mid = hists[sorted(hists)[len(hists) // 2]]
         ctx.sample([(s["op"], s["args"] if s["op"] != "new" else s["args"][0], s["ev"]) for s in mid], limit=5)
+    pool.close(); pool.join(); ex.shutdown()
     for op in ("fin", "where", "best", "raw"):
         if not ops.get(op): raise RuntimeError("no history contains a %s step" % op)
     ctx.traces += total
